@@ -136,7 +136,7 @@ func runFaultCase(c *Case, m *Monitor) faultRun {
 		}
 		conn.Do(func() {
 			for _, rec := range dev.Log {
-				if rec.Line != "" && (rec.Line == d.User || rec.Line == d.Password || rec.Line == d.Passphrase) {
+				if rec.Line != "" && (rec.Line == c10.LineOf(d.User) || rec.Line == c10.LineOf(d.Password) || rec.Line == c10.LineOf(d.Passphrase)) {
 					fr.s.credWrites++
 				}
 			}
@@ -144,7 +144,7 @@ func runFaultCase(c *Case, m *Monitor) faultRun {
 		fr.stream, fr.writes = len(conn.Stream()), conn.Writes()
 		return fr
 	}
-	variant, deviceSecret := "asks", c.Secondary
+	variant, deviceSecret := "asks", c10.LineOf(c.Secondary)
 	if fc.Variant != "" {
 		variant = fc.Variant
 		fr.s.kind = "refusal-" + fc.Config + "-" + fc.Variant
@@ -246,7 +246,7 @@ func genFaultCases(r *rand.Rand, tier string) []mon.Case {
 		host := hosts[ci%len(hosts)]
 		mk := func(fault string, at int, level string) Case {
 			c := Case{Kind: "fault", Level: level, Family: secretFamilies[n%len(secretFamilies)]}
-			c.Password, c.Passphrase, c.Secondary = genSecret(r, c.Family), genSecret(r, c.Family), genSecret(r, c.Family)
+			c.Password, c.Passphrase, c.Secondary = decorate(r, genSecret(r, c.Family), ""), decorate(r, genSecret(r, c.Family), ""), decorate(r, genSecret(r, c.Family), "\n")
 			c.Fault = &FaultCase{Config: cfgName, Host: host, Fault: fault, At: at, Seg: genSeg(r)}
 			return c
 		}
@@ -292,7 +292,7 @@ func genRefusalCases(r *rand.Rand) []mon.Case {
 			for li, list := range lists {
 				for _, level := range []string{"critical", "info", "debug"} {
 					c := Case{Kind: "fault", Level: level, Family: secretFamilies[n%len(secretFamilies)]}
-					c.Secondary = genSecret(r, c.Family)
+					c.Secondary = decorate(r, genSecret(r, c.Family), "\n")
 					c.Fault = &FaultCase{Config: cfgName, Host: hosts[n%len(hosts)], Fault: "none", Seg: genSeg(r), Variant: variant, FailedWhen: list}
 					out = append(out, mon.MkCase(fmt.Sprintf("c11/refusal/%s/%s/list%d/%s", cfgName, variant, li, level), c))
 					n++
